@@ -1364,3 +1364,47 @@ def r_span(repo, tier):
     if nst < 6:
         raise AnalysisError("R-SPAN: only %d part/smask stores found in class comp" % nst)
     return out
+
+
+# ======================================================================================= printed form is the identity of an expression
+def r_glyph(repo, tier):
+    out = RuleOut(
+        "R-GLYPH",
+        "exp.__hash__ is the hash of the printed form and exp.__eq__/__ne__ compare hashes, so two operators must never print alike: "
+        "(1) the OP_* symbols of cas/expressions.py are pairwise distinct, (2) the unicode glyph table icons.mop of ui/render.py is "
+        "injective over them -- glyph(s) = mop.get(s, s) takes pairwise distinct values for all operator symbols",
+    )
+    m = repo.mod(EXPR)
+    h = repo.func(EXPR, "exp.__hash__")
+    if not any(isinstance(c, ast.Call) and norm(c.func) == "hash" and any(isinstance(k, ast.Name) and k.id == "self" for k in ast.walk(c)) for c in ast.walk(h.node)):
+        raise AnalysisError("R-GLYPH: exp.__hash__ no longer hashes the printed form (anchor changed)")
+    consts = op_constants(m)
+    syms = {}
+    for name, v in consts.items():
+        if isinstance(v, str):
+            syms.setdefault(v, []).append(name)
+    out.inst("OP-symbols", {"symbols": sorted(syms)})
+    for v, names in sorted(syms.items()):
+        if len(names) > 1:
+            out.report(EXPR, "<module>", "symbol %r" % v, 0, "operators %s share the symbol %r: their expressions print, hash and compare alike" % (names, v))
+    r = repo.mod("amoco/ui/render.py")
+    mop = {}
+    for n in ast.walk(r.tree):
+        if isinstance(n, ast.Assign) and len(n.targets) == 1 and isinstance(n.targets[0], ast.Subscript) and norm(n.targets[0].value).endswith("icons.mop") and isinstance(n.targets[0].slice, ast.Constant) and isinstance(n.value, ast.Constant):
+            mop[n.targets[0].slice.value] = (n.value.value, n.lineno)
+        if isinstance(n, ast.Assign) and len(n.targets) == 1 and norm(n.targets[0]).endswith("mop") and isinstance(n.value, ast.Dict):
+            for k, v in zip(n.value.keys, n.value.values):
+                if isinstance(k, ast.Constant) and isinstance(v, ast.Constant):
+                    mop[k.value] = (v.value, v.lineno)
+    if len(mop) < 10:
+        raise AnalysisError("R-GLYPH: glyph table icons.mop not found in ui/render.py (%d rows)" % len(mop))
+    seen = {}
+    for s in sorted(syms):
+        g, line = mop.get(s, (s, 0))
+        out.inst("glyph::%s" % s, {"symbol": s, "glyph": g})
+        if g in seen:
+            out.report("amoco/ui/render.py", "<module>", "glyph of %r" % s, line or mop.get(seen[g], (None, 0))[1], "operators %r and %r are both printed as %r when unicode symbols are on: expressions that differ only by that operator hash and compare equal (vec.simplify drops one as a duplicate)" % (seen[g], s, g))
+        else:
+            seen[g] = s
+    out.stats["symbols"] = len(syms)
+    return out
